@@ -1122,3 +1122,54 @@ def gen_serde_case(rng, cid):
     if rng.random() < 0.3:
         store["default-criteria"] = rng.choice(crits)
     return finalize({"id": cid, "kind": "serde", "store_struct": store})
+
+
+# ---------------------------------------------------------------------------
+# crate archives (C19)
+
+def gen_unpack_case(rng, cid):
+    name, version = "foo", "1.0.0"
+    pre = f"{name}-{version}"
+    entries = []
+    benign = [(f"{pre}/Cargo.toml", "[package]"), (f"{pre}/src/lib.rs", "pub fn f() {}"), (f"{pre}/README.md", "readme"),
+              (f"{pre}/src/deep/mod.rs", "mod x;"), (f"{pre}/build.rs", "fn main() {}"), (f"{pre}/big.rs", "x" * 3000)]
+    for p, c in rng.sample(benign, rng.randint(2, len(benign))):
+        entries.append({"path": p, "kind": "file", "content": c})
+    hostile = []
+    r = rng.random()
+    if r < 0.55:
+        pool = [
+            {"path": f"{pre}/.cargo-ok", "kind": "file", "content": "ok"},
+            {"path": f"{pre}/.cargo-ok", "kind": "file", "content": "ok"},
+            {"path": f"{pre}/sub/.cargo-ok", "kind": "file", "content": "ok"},
+            {"path": f"{pre}/../escape.txt", "kind": "file", "content": "escaped"},
+            {"path": f"{pre}/../other-1.0.0/lib.rs", "kind": "file", "content": "overwritten"},
+            {"path": "../evil.txt", "kind": "file", "content": "evil"},
+            {"path": "/tmp/abs-evil.txt", "kind": "file", "content": "evil"},
+            {"path": "other-1.0.0/lib.rs", "kind": "file", "content": "overwritten"},
+            {"path": f"{pre}x/lib.rs", "kind": "file", "content": "sibling"},
+            {"path": f"{pre}/link", "kind": "symlink", "target": "../other-1.0.0"},
+            {"path": f"{pre}/link/lib.rs", "kind": "file", "content": "through symlink"},
+            {"path": f"{pre}/uplink", "kind": "symlink", "target": "../../.."},
+            {"path": f"{pre}/uplink/outside.txt", "kind": "file", "content": "through symlink"},
+            {"path": f"{pre}/hard", "kind": "hardlink", "target": "../other-1.0.0/lib.rs"},
+            {"path": f"{pre}/src/lib.rs", "kind": "file", "content": "duplicate entry"},
+            {"path": f"{pre}/lying.rs", "kind": "file", "content": "short", "size": 4000},
+            {"path": f"{pre}/emptydir", "kind": "dir"},
+        ]
+        for e in rng.sample(pool, rng.choice([1, 1, 2, 3])):
+            hostile.append(e)
+    for e in hostile:
+        entries.insert(rng.randint(0, len(entries)), e)
+    # symlink-then-file pairs must keep their order
+    for link in (f"{pre}/link", f"{pre}/uplink"):
+        idx = [i for i, e in enumerate(entries) if e["path"] == link]
+        sub = [i for i, e in enumerate(entries) if e["path"].startswith(link + "/")]
+        if idx and sub and sub[0] < idx[0]:
+            entries[idx[0]], entries[sub[0]] = entries[sub[0]], entries[idx[0]]
+    case = {"id": cid, "kind": "unpack", "name": name, "version": version, "entries": entries}
+    if rng.random() < 0.7:
+        # cut the (uncompressed-gzip) stream somewhere: inside a header, inside a body, at a boundary
+        approx = 30 + sum(512 + (len(e.get("content", "")) + 511) // 512 * 512 for e in entries)
+        case["truncate_at"] = rng.choice([rng.randint(1, approx), rng.randint(1, approx), (rng.randint(1, max(1, approx // 512))) * 512 + 10])
+    return case
